@@ -34,6 +34,12 @@ var vC17Programs = []struct {
 	// redeclaration in between: existing instances keep their definition
 	{`(def d (Dog Name: "rover" Number: 9001)) (struct Dog [(field Name: int64 e:0) (field Number: string e:1)]) (hset d Number: "seven")`, -1},
 	{`(def d (Dog Name: "rover" Number: 9002)) (struct Dog [(field Name: int64 e:0) (field Number: string e:1)]) (hset d Number: 9001) (+ 0 d.Number)`, 1},
+	// writes through pointers
+	{`(def d (Dog Name: "rover" Number: 9002)) (def pd (& d)) (derefSet pd (Dog Name: "rex" Number: 9001)) (+ 0 d.Number)`, 1},
+	{`(def d (Dog Name: "rover" Number: 9001)) (def pd (& d)) (derefSet pd 12)`, -1},
+	{`(def d (Dog Name: "rover" Number: 9001)) (def pd (& d)) (derefSet pd "str")`, -1},
+	{`(struct Cat [(field Nip: string e:0)]) (def d (Dog Name: "rover" Number: 9001)) (def pd (& d)) (derefSet pd (Cat Nip: "green"))`, -1},
+	{`(def d (Dog Name: "rover" Number: 9001)) (def pd (& d)) (struct Dog [(field Name: int64 e:0) (field Heavy: float64 e:1)]) (def d2 (Dog Name: 7 Heavy: 2.5)) (derefSet pd d2)`, -1},
 	// nil is accepted where the language says so
 	{`(def d (Dog Name: "rover" Number: 9001)) (hset d Name: nil) (+ 0 d.Number)`, 1},
 }
